@@ -27,7 +27,7 @@ The canonical history is a list of Model/Worker.v labels; `chk_proto` replays it
 model from the initial state that ends in an exited state with the observed outcome and store content.
 
   check(rep_prefix, tier, seed) -> list of disagreements   (counters in LAST_INFO)
-  python3 -m harness.worker_proto [n_specs [seed [tier]]]  self test
+  python3 -m harness.worker_proto [n_specs|- [seed [tier [C08|C09]]]]  self test
 """
 from __future__ import annotations
 
@@ -307,11 +307,15 @@ def install() -> None:
             return o_poll(self)
         OBS.o("poll_begin", busy=False)
         OBS.in_poll = True
+        raised = None
         try:
             return o_poll(self)
+        except BaseException as e:  # noqa: BLE001
+            raised = type(e).__name__
+            raise
         finally:
             OBS.in_poll = False
-            OBS.o("poll_end", busy=False)
+            OBS.o("poll_end", busy=raised is not None, raised=raised)
     WorkerManager.poll_result_queues = poll  # type: ignore[method-assign]
 
     o_wait = WorkerManager.wait_for_drop_completion
@@ -403,6 +407,17 @@ def install() -> None:
         OBS.o("spawn", w=str(cfw_uuid), pid=proc.pid)
         return proc, cq, rq
     WorkerManager.create_worker_process = cwp2  # type: ignore[method-assign]
+
+    o_send = WorkerManager.send_command
+
+    def send_command(self: Any, cfw_uuid: Any, command: Any) -> Any:
+        try:
+            return o_send(self, cfw_uuid, command)
+        except BaseException as e:  # noqa: BLE001
+            if OBS.is_main():
+                OBS.o("sendfail", w=str(cfw_uuid), exc=type(e).__name__)
+            raise
+    WorkerManager.send_command = send_command  # type: ignore[method-assign]
 
     o_att = WorkerManager.add_thread_task
 
@@ -611,7 +626,7 @@ def _scratch() -> str:
 
 def observe(spec: Dict[str, Any], mode: str, variant: str = "run", fault: Optional[Dict[str, Any]] = None,
             delays: Optional[Dict[str, float]] = None, timeout: float = 40.0) -> Dict[str, Any]:
-    """mode 'T' | 'M'; variant 'run' | 'stream' | 'abandon'; fault {'kind': calc|upload|result|prepare|artifacts|finaldrop|
+    """mode 'T' | 'M'; variant 'run' | 'stream' | 'abandon'; fault {'kind': calc|upload|result|prepare|send|artifacts|finaldrop|
     workerdrop, 'sid': int}.  Returns the raw records, the plan and the outcome."""
     from mloda.user import ParallelizationMode
     logging.disable(logging.CRITICAL)
@@ -636,6 +651,10 @@ def observe(spec: Dict[str, Any], mode: str, variant: str = "run", fault: Option
         OBS.fault[kind] = str(steps[fault["sid"]].uuid)
     elif kind in ("artifacts", "finaldrop", "workerdrop"):
         OBS.fault[kind] = True
+    elif kind == "send":
+        # a step that really cannot be pickled (a local function among its attributes; the run executes a deep copy of the plan,
+        # functions are copied by reference): crash point CSend inside WorkerManager.send_command
+        steps[fault["sid"]]._verif_unpicklable = lambda: None
     modes = {ParallelizationMode.MULTIPROCESSING} if mode == "M" else {ParallelizationMode.THREADING}
     kw: Dict[str, Any] = {}
     keys_before: Set[str] = set()
@@ -857,9 +876,12 @@ def build_history(ob: Dict[str, Any]) -> Dict[str, Any]:
             emit(ts, ("OPoll", tuple(taken)))
             pending_visit = pending_visit if pending_visit is not None else ts
             polled = True
-            if taken and taken[-1][1][0] == "RDropComplete":
+            if r.get("raised"):
+                # poll_result_queues itself raised (the behaviour before repair 10693fe on a late DROP_COMPLETE): the model's poll
+                # never does (Worker_poll_never_raises) - no label for it, the history continues with the finally block
                 pending_visit = None
                 body_crash = True
+                ob["poll_raised"] = r["raised"]
         elif k == "psr":
             if r["r"] == "raise":
                 if pending_visit is not None and polled and not body_crash:
@@ -884,8 +906,12 @@ def build_history(ob: Dict[str, Any]) -> Dict[str, Any]:
             pass
         elif k == "exec_end":
             # stamped at exec_begin for the send (the put happens inside): use the begin record's ts
-            b = next(x for x in reversed(recs[:i]) if x["k"] == "exec_begin")
-            emit(b["ts"], ("OExec", bool(r["ok"])))
+            bi = max(j for j in range(i) if recs[j]["k"] == "exec_begin")
+            b = recs[bi]
+            if not r["ok"] and any(x["k"] == "sendfail" for x in recs[bi:i]):
+                emit(b["ts"], ("OSendFail",))
+            else:
+                emit(b["ts"], ("OExec", bool(r["ok"])))
             pending_visit = None
             if not r["ok"]:
                 body_crash = True
@@ -990,7 +1016,7 @@ def _fix_registers(labels: List[Tuple[Tuple[Any, ...], Dict[str, Any], int]]) ->
 # ----------------------------------------------------------------------------------------------------------------------
 def cq_label(l: Tuple[Any, ...]) -> str:
     k = l[0]
-    if k in ("OHead", "OVisit", "OEndScan", "OResume", "OAbandon", "OClose"):
+    if k in ("OHead", "OVisit", "OEndScan", "OResume", "OAbandon", "OClose", "OSendFail"):
         return k
     if k == "OPoll":
         return "OPoll " + cq_list(f"({cq_nat(w)}, {('RDone ' + cq_nat(m[1])) if m[0] == 'RDone' else 'RDropComplete'})" for w, m in l[1])
@@ -1060,13 +1086,31 @@ def judge(ob: Dict[str, Any], h: Dict[str, Any]) -> List[str]:
         bad.append(f"{ob['threads_left']} worker thread(s) alive after the call")
     if kind not in ("artifacts", "finaldrop") and ob["keys_left"]:
         bad.append(f"datasets left in the Flight store: {len(ob['keys_left'])}")
+    if ob.get("poll_raised"):
+        bad.append(f"poll_result_queues raised {ob['poll_raised']} (a message on a result queue that is not a step uuid made the run fail)")
+    if ob.get("expect_ok") and ob["status"] != "ok":
+        bad.append(f"a run in which nothing fails ended with status {ob['status']}: {ob.get('exc')}")
     return bad
 
 
-def check(rep_prefix: str, tier: str, seed: int, n_specs: Optional[int] = None) -> List[Dict[str, Any]]:
+FOCUS = {
+    # which THREADING faults / MULTIPROCESSING faults / slow special cases a caller pays for
+    None: {"tf": ("calc", "result", "prepare", "artifacts"), "mf": ("calc", "result", "prepare", "send", "artifacts", "finaldrop", "upload"),
+           "slow": ("workerdrop", "stale"), "mp_abandon": True},
+    # C08: every place where something fails and must be reported (or is lost by design: workerdrop), and the run in which nothing
+    # fails but a late DROP_COMPLETE is polled
+    "C08": {"tf": ("calc", "result", "prepare"), "mf": ("calc", "upload", "result", "prepare", "send"), "slow": ("workerdrop", "stale"),
+            "mp_abandon": False},
+    # C09: what is left behind on every exit path: all three variants, failures inside the finally block, abandoned MP streams
+    "C09": {"tf": ("calc", "artifacts"), "mf": ("calc", "artifacts", "finaldrop", "send"), "slow": (), "mp_abandon": True},
+}
+
+
+def check(rep_prefix: str, tier: str, seed: int, n_specs: Optional[int] = None, focus: Optional[str] = None) -> List[Dict[str, Any]]:
     """Observe real runs, replay their histories in Coq against chk_proto, judge them.  Returns disagreements; counters
     in LAST_INFO.  Each disagreement: {"stage": "model"|"judge"|"observe", "what": str, "case": {...}} (JSON-able; the
-    case holds spec, mode, variant, fault, history and can be re-run with replay_case)."""
+    case holds spec, mode, variant, fault, history and can be re-run with replay_case).  `focus` ("C08" | "C09" | None = all)
+    selects the fault kinds and slow special cases, see FOCUS."""
     logging.disable(logging.CRITICAL)
     rng = random.Random(seed * 7919 + 17)
     big = tier == "thorough"
@@ -1080,10 +1124,15 @@ def check(rep_prefix: str, tier: str, seed: int, n_specs: Optional[int] = None) 
     t_start = time.time()
     budget = 460.0 if big else 42.0
 
-    def one(spec: Dict[str, Any], mode: str, variant: str, fault: Optional[Dict[str, Any]], delays: Optional[Dict[str, float]] = None) -> Optional[Dict[str, Any]]:
+    foc = FOCUS[focus]
+    info["focus"] = focus or "all"
+
+    def one(spec: Dict[str, Any], mode: str, variant: str, fault: Optional[Dict[str, Any]], delays: Optional[Dict[str, float]] = None,
+            expect_ok: bool = False) -> Optional[Dict[str, Any]]:
         try:
             for attempt in range(3):
                 ob = observe(spec, mode, variant, fault, delays)
+                ob["expect_ok"] = expect_ok
                 # the connection to the multiprocessing manager (a separate OS process) occasionally breaks on a loaded machine
                 # (BrokenPipeError / EOFError out of a proxy call): infrastructure the model assumes reliable -> observe again
                 if ob.get("exc") and any(k in ob["exc"] for k in INFRA_ERRORS) and attempt < 2:
@@ -1094,7 +1143,8 @@ def check(rep_prefix: str, tier: str, seed: int, n_specs: Optional[int] = None) 
             h = build_history(ob)
         except Exception as e:  # noqa: BLE001
             dis.append({"stage": "observe", "what": f"observation failed: {type(e).__name__}: {str(e)[:200]}",
-                        "case": {"spec": spec, "mode": mode, "variant": variant, "fault": fault, "delays": delays}})
+                        "case": {"kind": "worker_proto", "spec": spec, "mode": mode, "variant": variant, "fault": fault, "delays": delays,
+                                 "expect_ok": expect_ok}})
             return None
         runs.append({"ob": ob, "h": h, "delays": delays})
         info["runs"][mode] += 1
@@ -1103,7 +1153,8 @@ def check(rep_prefix: str, tier: str, seed: int, n_specs: Optional[int] = None) 
         info["faults"][fk] = info["faults"].get(fk, 0) + 1
         return runs[-1]
 
-    mp_left = 170 if big else 9
+    mp_left = 170 if big else 13
+    n_mp_specs = 0
     for si, spec in enumerate(specs):
         if time.time() - t_start > budget:
             break
@@ -1118,9 +1169,10 @@ def check(rep_prefix: str, tier: str, seed: int, n_specs: Optional[int] = None) 
         # THREADING: fault-free in three variants, then one fault per crash point that exists in THREADING
         for variant in ("run", "stream", "abandon"):
             one(spec, "T", variant, None)
-        tf = [{"kind": "calc", "sid": rng.choice(fg)}, {"kind": "result", "sid": rng.choice(fg)},
-              {"kind": "prepare", "sid": rng.choice(anys)}, {"kind": "artifacts"}]
-        for f in (tf if big else rng.sample(tf, 2)):
+        tf = [f for f in ({"kind": "calc", "sid": rng.choice(fg)}, {"kind": "result", "sid": rng.choice(fg)},
+                          {"kind": "prepare", "sid": rng.choice(anys)}, {"kind": "artifacts"}) if f["kind"] in foc["tf"]]
+        # quick tier: two fault kinds per plan, rotating through the list so that every kind occurs in every run of the check
+        for f in (tf if big else [tf[(2 * si + j) % len(tf)] for j in range(2)]):
             one(spec, "T", rng.choice(["run", "stream"]), f)
         # MULTIPROCESSING (slow): fault-free, then faults
         if mp_left > 0:
@@ -1129,22 +1181,28 @@ def check(rep_prefix: str, tier: str, seed: int, n_specs: Optional[int] = None) 
             # steps during whose execution the worker uploaded (targets of the upload fault)
             up_steps = _upload_steps(base) if base is not None else []
             mf: List[Dict[str, Any]] = [{"kind": "calc", "sid": rng.choice(fg)}, {"kind": "result", "sid": rng.choice(fg)},
-                                        {"kind": "prepare", "sid": rng.choice(anys)}, {"kind": "artifacts"}, {"kind": "finaldrop"}]
+                                        {"kind": "prepare", "sid": rng.choice(anys)}, {"kind": "send", "sid": rng.choice(anys)},
+                                        {"kind": "artifacts"}, {"kind": "finaldrop"}]
             if up_steps:
                 mf.append({"kind": "upload", "sid": rng.choice(up_steps)})
-            for f in (mf if big else rng.sample(mf, 2)):
+            mf = [f for f in mf if f["kind"] in foc["mf"]]
+            for f in (mf if big else [mf[(2 * n_mp_specs + j) % len(mf)] for j in range(2)]):
                 if mp_left <= 0:
                     break
                 one(spec, "M", "run" if f["kind"] != "result" or rng.random() < 0.5 else "stream", f)
                 mp_left -= 1
-            if big and mp_left > 0 and si % 5 == 0:
+            n_mp_specs += 1
+            if foc["mp_abandon"] and mp_left > 0 and (si % 5 == 0 if big else n_mp_specs == 1):
                 one(spec, "M", "abandon", None)
                 mp_left -= 1
-    # the slow special cases: worker-side drop crash (5 s stall) and the stale DROP_COMPLETE witness (6 s)
-    for _ in range(3 if big else 1):
-        one(_drop_all_spec(), "M", "run", {"kind": "workerdrop"})
-    sspec, sdel = spec_stale_drop_complete()
-    one(sspec, "M", "run", None, sdel)
+    # the slow special cases: worker-side drop crash (5 s stall) and the late DROP_COMPLETE run (the witness of the former finding
+    # C06-mp-stale-drop-complete, fixed:10693fe; ~10 s): nothing fails in it, it must return its three results
+    if "workerdrop" in foc["slow"]:
+        for _ in range(3 if big else 1):
+            one(_drop_all_spec(), "M", "run", {"kind": "workerdrop"})
+    if "stale" in foc["slow"]:
+        sspec, sdel = spec_stale_drop_complete()
+        one(sspec, "M", "run", None, sdel, expect_ok=True)
 
     # ---- replay in Coq
     terms = []
@@ -1161,7 +1219,7 @@ def check(rep_prefix: str, tier: str, seed: int, n_specs: Optional[int] = None) 
         trig = _fault_triggered(ob, h)
         if trig:
             info["fault_triggered"][fk] = info["fault_triggered"].get(fk, 0) + 1
-        if any(l[0] == "OPoll" and l[1] and l[1][-1][1][0] == "RDropComplete" for l in h["hist"]):
+        if any(l[0] == "OPoll" and any(m[0] == "RDropComplete" for _, m in l[1]) for l in h["hist"]):
             info["stale_drop_complete_runs"] += 1
     bad: List[int] = []
     if terms:
@@ -1177,16 +1235,12 @@ def check(rep_prefix: str, tier: str, seed: int, n_specs: Optional[int] = None) 
         ob, h = r["ob"], r["h"]
         for b in judge(ob, h):
             dis.append({"stage": "judge", "what": f"{ob['mode']}/{ob['variant']} fault {ob['fault'] or None}: {b}", "case": _case_of(r)})
-        if any(l[0] == "OPoll" and l[1] and l[1][-1][1][0] == "RDropComplete" for l in h["hist"]) and not (ob["fault"] or {}).get("kind"):
-            dis.append({"stage": "known", "key": "C06-mp-stale-drop-complete",
-                        "what": f"fault-free MULTIPROCESSING run raised {ob.get('exit_exc')}: a DROP_COMPLETE that arrived after the 5 s wait "
-                                "timed out was taken by poll_result_queues", "case": _case_of(r)})
     hl = info["hist_len"]
     info["hist_len"] = {"n": len(hl), "min": min(hl) if hl else 0, "max": max(hl) if hl else 0, "sum": sum(hl)}
     ws_ = info["workers"]
     info["workers"] = {"min": min(ws_) if ws_ else 0, "max": max(ws_) if ws_ else 0}
     info["wall_s"] = round(time.time() - t_start, 1)
-    info["disagreements"] = len([d for d in dis if d["stage"] != "known"])
+    info["disagreements"] = len(dis)
     LAST_INFO.clear()
     LAST_INFO.update(info)
     return dis
@@ -1231,6 +1285,8 @@ def _fault_triggered(ob: Dict[str, Any], h: Dict[str, Any]) -> bool:
         return ("OCollect", False) in hist
     if k == "prepare":
         return ("OExec", False) in hist
+    if k == "send":
+        return ("OSendFail",) in hist
     if k == "artifacts":
         return ("OArtifacts", False) in hist
     if k == "finaldrop":
@@ -1242,8 +1298,8 @@ def _fault_triggered(ob: Dict[str, Any], h: Dict[str, Any]) -> bool:
 
 def _case_of(r: Dict[str, Any]) -> Dict[str, Any]:
     ob, h = r["ob"], r["h"]
-    return {"spec": ob["spec"], "mode": ob["mode"], "variant": ob["variant"], "fault": ob["fault"] or None, "delays": r.get("delays"),
-            "status": ob["status"], "exc": ob.get("exc"), "exit": h["exit"], "keys_left": ob["keys_left"], "procs_left": ob["procs_left"],
+    return {"kind": "worker_proto", "spec": ob["spec"], "mode": ob["mode"], "variant": ob["variant"], "fault": ob["fault"] or None,
+            "delays": r.get("delays"), "expect_ok": bool(ob.get("expect_ok")), "status": ob["status"], "exc": ob.get("exc"), "exit": h["exit"], "keys_left": ob["keys_left"], "procs_left": ob["procs_left"],
             "plan": [{k: v for k, v in s.items() if k in ("sid", "kind", "uuids", "req", "requested")} for s in ob["plan"]["steps"]],
             "wof": h["wof"], "wdrop": h["wdrop"], "children": h["children"], "wfail": h["wfail"],
             "history": [" ".join(str(x) for x in l) for l in h["hist"]]}
@@ -1265,6 +1321,7 @@ def _diagnose(rep_prefix: str, term: str) -> str:
 def replay_case(case: Dict[str, Any], rep_prefix: str = "Worker") -> Dict[str, Any]:
     """Re-run one case (as stored in a disagreement) against the current tree."""
     ob = observe(case["spec"], case["mode"], case["variant"], case.get("fault"), case.get("delays"))
+    ob["expect_ok"] = bool(case.get("expect_ok"))
     h = build_history(ob)
     term = cq_case(ob["plan"], ob["mode"], ob["variant"] != "run", h)
     bad, _ = vlib.run_cases(rep_prefix, "worker_proto_replay", REQ, "chk_proto", [term], case_type="pcase")
@@ -1278,16 +1335,14 @@ def main(argv: List[str]) -> int:
     tier = argv[3] if len(argv) > 3 else "quick"
     pr = vlib.build_props("Worker")
     print("Props/Worker.v:", "ok" if pr.ok else "BROKEN", f"{pr.discharged}/{pr.obligations} statements,", sorted(set(pr.assumptions)))
-    dis = check("Worker", tier, seed, n_specs=n)
+    dis = check("Worker", tier, seed, n_specs=n, focus=(argv[4] if len(argv) > 4 else None))
     stop_flight_server()
     print(json.dumps(LAST_INFO, indent=1, default=str))
     for d in dis[:12]:
-        print("KNOWN" if d["stage"] == "known" else "DISAGREEMENT", d["stage"], d["what"])
-        if d["stage"] != "known":
-            print("   case:", json.dumps({k: v for k, v in d["case"].items() if k in ("mode", "variant", "fault", "exit", "status", "exc")}))
-            print("   history:", "; ".join(d["case"].get("history", []))[:1500])
-    real = [d for d in dis if d["stage"] != "known"]
-    return 1 if (real or not pr.ok) else 0
+        print("DISAGREEMENT", d["stage"], d["what"])
+        print("   case:", json.dumps({k: v for k, v in d["case"].items() if k in ("mode", "variant", "fault", "exit", "status", "exc")}))
+        print("   history:", "; ".join(d["case"].get("history", []))[:1500])
+    return 1 if (dis or not pr.ok) else 0
 
 
 if __name__ == "__main__":
